@@ -263,7 +263,11 @@ def judge(chk, byid, res, rule, variant):
             if x.get("layout"):
                 stats["layout_drift"] = stats.get("layout_drift", 0) + 1
             if not x.get("oracle_honest_ok", True):
-                raise ToolError("the oracle rejects an honest lookup assignment: %s" % json.dumps(x)[:300])
+                # the library's own witness (lookup rows, table rows, padding) violates the lookup relation / gates per
+                # the oracle although the honest proof verified: an accepted proof for a violating assignment
+                chk.violation("C08/honest-assignment-violates-circuit/%s" % s["id"],
+                              "the assignment produced by witness generation + set_lookup_wires violates the circuit per the satisfaction oracle",
+                              {"scenario": s, "observed": x, "expected": "every lookup slot holds a pair of its table, table rows hold the table"})
             if len(chk.samples) < 3:
                 chk.sample({"scenario": {"id": s["id"], "classes": s["classes"], "cfg": s["cfg"], "expect_rows": s["expect"]["rows"]}, "honest": x})
             continue
